@@ -565,6 +565,132 @@ pub fn odd_hash_program(r: &mut Rng) -> Vec<u8> {
     assemble(&bs, r.below(2))
 }
 
+/// a `bytes` / `string` slot the way the compiler lays it out: the length / flag fields of the short
+/// form masked *in place* ([0,1), [1,8), [8,256)) and or-ed into the slot, the data in the dynamic
+/// array at keccak(slot); the fields are loaded once and some are also stored elsewhere, before or
+/// after, so that their type variables are numbered by whichever store is visited first
+pub fn string_slot_program(r: &mut Rng) -> Vec<u8> {
+    let mut a = vm::Asm::new(0);
+    let spans: [(usize, usize); 3] = [(0, 1), (1, 7), (8, 248)];
+    let mut pick: Vec<usize> = (0..3).collect();
+    for i in (1..3).rev() {
+        let j = r.below(i + 1);
+        pick.swap(i, j);
+    }
+    let n = 2 + r.below(2);
+    let pick = &pick[..n];
+    let slot = r.below(4) as u64;
+    // the fields, each loaded once
+    for (i, &p) in pick.iter().enumerate() {
+        let (off, len) = spans[p];
+        let mut w = vec![0u8; 32];
+        for b in off..off + len {
+            w[31 - b / 8] |= 1 << (b % 8);
+        }
+        a.push_word(&w);
+        a.push_u(0x20 * i as u64);
+        a.op(0x35);
+        a.op(0x16);
+    }
+    let share_first = r.chance(1, 2);
+    let shared = r.below(n);
+    let store_shared = |a: &mut vm::Asm| {
+        a.op(0x80 + (n - 1 - shared) as u8);
+        a.push_u(5 + slot);
+        a.op(0x55);
+    };
+    if share_first {
+        store_shared(&mut a);
+    }
+    // the packed word
+    for i in 0..n {
+        let extra = usize::from(i > 0);
+        a.op(0x80 + (n - 1 - i + extra) as u8);
+        if i > 0 {
+            a.op(0x17);
+        }
+    }
+    a.push_u(slot);
+    a.op(0x55);
+    if !share_first && r.chance(2, 3) {
+        store_shared(&mut a);
+    }
+    // the data
+    if r.chance(3, 4) {
+        a.push_u(0x60);
+        a.op(0x35);
+        a.push_u(slot);
+        a.push_u(0);
+        a.op(0x52);
+        a.push_u(0x20);
+        a.push_u(0);
+        a.op(0x20);
+        a.push_u(0x80);
+        a.op(0x35);
+        a.op(0x01);
+        a.op(0x55);
+    }
+    for _ in 0..n {
+        a.op(0x50);
+    }
+    a.op(0x00);
+    a.finish()
+}
+
+/// a field at the top of its slot (bits A..256) with a sub-field cut out of it at a non-zero inner
+/// offset that stays inside the field (so not the over-wide nesting of finding D20): nested packed
+/// encodings whose offsets accumulate right up to the end of the word
+pub fn nested_top_field_program(r: &mut Rng) -> Vec<u8> {
+    let mut a = vm::Asm::new(0);
+    let slot = r.below(4) as u64;
+    let top = [64usize, 96, 128, 160, 192, 248][r.below(6)];
+    let w = 256 - top;
+    let inner_off = [8usize, 16, 32, 64, w / 2][r.below(5)].min(w - 8).max(1);
+    // half of the time the sub-field reaches the top of the field (and so the top of the word)
+    let inner_len = if r.chance(1, 2) { w - inner_off } else { [8usize, 16, 32, 64][r.below(4)].min(w - inner_off) };
+    let mask = |len: usize| -> Vec<u8> {
+        let mut m = vec![0u8; 32];
+        for b in 0..len {
+            m[31 - b / 8] |= 1 << (b % 8);
+        }
+        m
+    };
+    // hi = (sload(slot) >> top) & mask(w)
+    a.push_u(slot);
+    a.op(0x54);
+    a.push_u(top as u64);
+    a.op(0x1c);
+    a.push_word(&mask(w));
+    a.op(0x16);
+    // sub = (hi >> inner_off) & mask(inner_len)
+    a.op(0x80);
+    a.push_u(inner_off as u64);
+    a.op(0x1c);
+    a.push_word(&mask(inner_len));
+    a.op(0x16);
+    match r.below(3) {
+        0 => {
+            a.push_u(slot + 1);
+            a.op(0x55);
+            a.push_u(slot + 2);
+            a.op(0x55);
+        }
+        1 => {
+            a.push_u(slot + 1);
+            a.op(0x55);
+            a.op(0x50);
+        }
+        _ => {
+            a.push_u(0);
+            a.op(0x52);
+            a.push_u(0x20);
+            a.op(0x52);
+        }
+    }
+    a.op(0x00);
+    a.finish()
+}
+
 /// real storage accesses whose results meet look-alike hashes (keccak(key . CONST),
 /// keccak(CONST) + i) in the same expression, outside the access itself
 pub fn mixed_lookalike_program(r: &mut Rng) -> Vec<u8> {
